@@ -173,7 +173,96 @@ let run ?(nozs=false) pinned =
       with _ -> "badcase" in
     print_endline out)
 
+(* ------------------------------------------------------------ memory level (CopierMemModel):
+   every call is run on a store built from the case's tree values (inject_at: each pointer, slice,
+   map of the literal in its own cell; source and destination separate); the observable is the
+   status, which references of the destination afterwards are the SOURCE's (S) / not (F) / nil (N) /
+   a slice without cells (E) - same traversal as the harness' aliasWalk -, and the erased destination *)
+open CopierMemModel
+
+let status_text = function
+  | SOk -> "ok" | SErr e -> "err:" ^ class_of e | SPanic -> "panic"
+
+let rec zero_size (t : ty) = match t with
+  | Struct (_, fs) -> List.for_all (fun ((_, _), ft) -> zero_size ft) fs
+  | _ -> false
+
+let rec alias_walk b (t : ty) (a : aval) (cells : int list) (arrsrc : int list) (mapsrc : int list) =
+  let mark yes = Buffer.add_char b (if yes then 'S' else 'F') in
+  match t, a with
+  | Struct (_, fs), AStruct xs ->
+    let rec go fs xs = match fs, xs with
+      | ((_, _), ft) :: fr, x :: xr -> alias_walk b ft x cells arrsrc mapsrc; go fr xr
+      | _, _ -> () in
+    go fs xs
+  | Ptr _, APtr None -> Buffer.add_char b 'N'
+  | Ptr e, APtr (Some (ad, x)) ->
+    (if zero_size e then Buffer.add_char b 'Z' else mark (List.mem (int_of_nat ad) cells));
+    alias_walk b e x cells arrsrc mapsrc
+  | Slice _, ALeaf (MSlice None) -> Buffer.add_char b 'N'
+  | Slice _, ALeaf (MSlice (Some (((id, _), _), cap))) ->
+    if int_of_nat cap = 0 then Buffer.add_char b 'E' else mark (List.mem (int_of_nat id) arrsrc)
+  | Map _, ALeaf (MMap None) -> Buffer.add_char b 'N'
+  | Map _, ALeaf (MMap (Some id)) -> mark (List.mem (int_of_nat id) mapsrc)
+  | _, _ -> ()
+
+let run_mem () =
+  iter_lines (fun line ->
+    let out =
+      try
+        match parse_sx line with
+        | L [A "case"; L [A "src"; st]; L [A "dst"; dt]; L (A "opts" :: os); L (A "calls" :: cs)] ->
+          let st = ty_of st and dt = ty_of dt in
+          let os = List.map opt_of os in
+          let cs = List.map call_of cs in
+          let b = Buffer.create 256 in
+          let ctor = new_reflect_copier st dt os in
+          (match ctor with
+           | COk _ -> Buffer.add_string b "ctor=ok"
+           | CErr e -> Buffer.add_string b ("ctor=err:" ^ class_of e)
+           | CPanic -> Buffer.add_string b "ctor=panic");
+          List.iter (fun k ->
+            Buffer.add_string b " | ";
+            match ctor, k with
+            | _, CallPure _ -> Buffer.add_string b "-"
+            | COk c, _ ->
+              let inj t v s = match v with
+                | None -> (None, s)
+                | Some x -> let (a, s') = inject_at t x s in (Some a, s') in
+              let (sa, s1, da, s2, stt) = (match k with
+                | CallCopy (src, ps) ->
+                  let (sa, s1) = inj st src empty_store in
+                  let ((s2, da), stt) = mem_copy c st dt s1 sa ps in
+                  (sa, s1, Some da, s2, stt)
+                | CallCopyTo (src, dst, ps) ->
+                  let (sa, s0) = inj st src empty_store in
+                  let (da, s1) = inj dt dst s0 in
+                  let (s2, stt) = mem_copy_to c st dt s1 sa da ps in
+                  (sa, s1, da, s2, stt)
+                | CallPure _ -> failwith "pure") in
+              (match stt with
+               | SPanic -> Buffer.add_string b "panic -"
+               | _ ->
+                 Buffer.add_string b (status_text stt); Buffer.add_string b " A:";
+                 let cells = List.map int_of_nat (cells_of s1 st sa) in
+                 let lv = leaves (load_root s1.ptrs st sa) in
+                 let arrsrc = List.filter_map (function MSlice (Some (((id, _), _), _)) -> Some (int_of_nat id) | _ -> None) lv in
+                 let mapsrc = List.filter_map (function MMap (Some id) -> Some (int_of_nat id) | _ -> None) lv in
+                 (match load_root s2.ptrs dt da with
+                  | APtr (Some (_, x)) -> alias_walk b dt x cells arrsrc mapsrc
+                  | _ -> ());
+                 Buffer.add_string b " ";
+                 (match erase_at s2 dt da with
+                  | None -> Buffer.add_string b "nil"
+                  | Some v -> show_val b v))
+            | _, _ -> Buffer.add_string b "skip -") cs;
+          Buffer.contents b
+        | _ -> "badcase"
+      with _ -> "badcase" in
+    print_endline out)
+
 let () =
+  Registry.register "copier-mem" (fun _ -> run_mem ());
   Registry.register "copier" (fun _ -> run false);
   Registry.register "copier-pinned" (fun _ -> run true);
   (* the repaired variant without the zero-skip: only used to tolerate a repair of the known finding C20:copy:zero-skip *)
